@@ -836,6 +836,14 @@ pub fn run_history(ctx: &mut Ctx, src: &mut Source, seed: u64) -> Option<History
             ("long_value", op_has_long(op).to_string()),
             ("db_has_toast", ever_long.to_string()),
             (
+                "has_empty_var",
+                tname
+                    .as_ref()
+                    .and_then(|t| view_before.tables.get(t))
+                    .map_or(false, |t| t.rows.iter().any(|r| r.iter().any(|v| matches!(v, Val::Blob(b) if b.is_empty()) || matches!(v, Val::Text(x) if x.is_empty()))))
+                    .to_string(),
+            ),
+            (
                 "composite_index",
                 tname
                     .as_ref()
